@@ -550,8 +550,9 @@ class Transformer:
         if k == 5:
             s.targets = [ast.Name(id=self.r.choice(["password", "token", "secret_key", "pwd", "passwd", "x", "data"]), ctx=ast.Store())]
             return "target:renamed"
-        s.targets = [ast.Tuple(elts=[ast.Name(id=nm, ctx=ast.Store()), ast.Name(id=nm, ctx=ast.Store())], ctx=ast.Store())]
-        s.value = ast.Tuple(elts=[s.value, _e("other_")], ctx=ast.Load())
+        # the same name twice in one target list, with another name between (found by tools/mutation: B703's tuple walk stopped / did not stop at the first match)
+        s.targets = [ast.Tuple(elts=[ast.Name(id=nm, ctx=ast.Store()), ast.Name(id="other_", ctx=ast.Store()), ast.Name(id=nm, ctx=ast.Store())], ctx=ast.Store())]
+        s.value = ast.Tuple(elts=[s.value, _e("'lit'"), _e("other_")] if self.r.random() < 0.5 else [_e("'lit'"), _e("other_"), s.value], ctx=ast.Load())
         return "target:duplicate_name"
 
     def t_handler_variant(self, tree):
